@@ -609,7 +609,13 @@ pub fn exec(op: &str, a: &[&str]) -> Option<String> {
         },
         "djsonrt" => match serde_json::to_string(&s2d(a[0])) {
             Ok(s) => match super::json_all::<Duration>(&s) {
-                Ok(r) => res_d(r.ok_or(())),
+                // ... and so must a data format that is not human readable (crate::binfmt)
+                Ok(r) => {
+                    if crate::binfmt::round_trip(&s2d(a[0])).ok() != r {
+                        return Some("entry-points-differ".to_string());
+                    }
+                    res_d(r.ok_or(()))
+                }
                 Err(()) => Some("entry-points-differ".to_string()),
             },
             Err(_) => Some("err".to_string()),
